@@ -119,6 +119,10 @@ Definition apply_action (P : program) (s : ospec) (i : nat) (w : who) (a : actio
                o_pubs := o_pubs s; o_cancel_step := o_cancel_step s; o_filtered := o_filtered s; o_entered := o_entered s;
                o_fired := o_fired s; o_last_resume := o_last_resume s; o_last_sync := o_last_sync s; o_vague := true;
                o_bad := o_bad s |}
+          else if o_vague s && Nat.eqb r 0 then
+            (* an earlier Unsubscribe may have removed this registration instead of an already retired once-handler:
+               "not found" is then a legal answer, and it tells that no registration with this function is left *)
+            set_reg s (assoc_set (o_reg s) t (filter (fun rh => negb (Nat.eqb (h_fn (snd rh)) fn)) (reg_of s t)))
           else check (Nat.eqb r 1) (set_reg s (assoc_set (o_reg s) t rest)) i
         end
       end
